@@ -275,3 +275,24 @@ let () =
             | None, _ -> "F") in
       Printf.sprintf "OUT=%s|END=%s" (String.concat " " toks) fin
     | _ -> "?args")
+
+(* ------------------------------------------------------------------------------------------
+   resume_fault_verdict proto src dst size hashes answers   -> D:<md5 of the destination> | N
+   Model/FaultResume.v fr_exchange_code (the guard and the truncation are the regenerated
+   Consts.c02_resume_rest_guard / c02_resume_truncates) on what was delivered during the resume
+   exchange of the in-process pair (go/cmd/corr/c02r.go).  B := Consts.prefix_hash_step;
+   H := the hex text of MD5, as fmt.Sprintf("%x", ...) gives it. *)
+let () =
+  register "resume_fault_verdict" (function [proto; src; dst; size; hashes; answers] ->
+      let h (w : n list) : n list = ft_bytes_of_str (Digest.to_hex (Digest.string (ft_str_of_bytes w))) in
+      let hs = List.map (fun t -> match String.split_on_char ':' t with
+          | ["H"; step; d] -> Resume.Hash (z_of_string step, bytes_of_hex d)
+          | _ -> Resume.Over) (ft_split ',' hashes) in
+      let ans = List.map (fun t -> match String.split_on_char ':' t with
+          | ["A"; step; m] -> { Resume.a_step = z_of_string step; a_match = bool_of m }
+          | _ -> failwith "answer") (ft_split ',' answers) in
+      let d = { FaultResume.fd_size = (if size = "-" then Z0 else z_of_string size); fd_hashes = hs; fd_answers = ans } in
+      (match FaultResume.fr_exchange_code Consts.prefix_hash_step h (int_of_string proto >= 4) (bytes_of_hex src) (bytes_of_hex dst) d with
+       | Some o -> "D:" ^ Digest.to_hex (Digest.string (ft_str_of_bytes o.FaultResume.fo_final))
+       | None -> "N")
+    | _ -> "?args")
